@@ -28,6 +28,7 @@ BINARY = {"eq", "ne", "all_gt", "all_lt", "any_gt", "any_lt", "all_ge", "all_le"
 FLAGS = [(True, True), (True, False), (False, True), (False, False)]
 SETTINGS = {"kcals_daily": 2100.0, "fat_daily": 47.0, "protein_daily": 51.0, "population": 7.8e9}
 REJ = {"AssertRejected", "TypeRejected", "ValueRejected"}
+KEY_TYPES = ["int", "int", "int64", "int32", "0d", "arange", "argmin"]   # Python int and numpy integer index keys
 OPS_WITH_UNIT_CHECK = {"add", "sub", "div_food", "min_elem", "min_elem_r"}
 
 
@@ -158,7 +159,8 @@ def gen_step(rng, mon, n):
         q = grid(rng)
         return {"op": "div_num", "q": q if q != 0 or rng.random() < 0.1 else 2.0}, mon, n
     if o == "index":
-        return {"op": "index", "i": rng.randint(-n - 1, n) if n else rng.randint(-1, 1)}, False, 0
+        return {"op": "index", "i": rng.randint(-n - 1, n) if n else rng.randint(-1, 1),
+                "kt": rng.choice(KEY_TYPES)}, False, 0
     if o == "slice":
         a = rng.randint(0, max(n, 1))
         b = rng.randint(a, n + 1) if rng.random() < 0.85 else rng.randint(0, a)
@@ -392,7 +394,8 @@ def seq_terms(seq, res, conv):
         sc = scale_of(cur, y, rr)
         if st["op"] in ("mul_num", "rmul_num", "div_num"):
             sc = max(sc, abs(st["q"]))
-        items.append(f"({coq_op(st, y)}, {coq_expected(rr)}, {fq(sc)})")
+        stc = dict(st, i=r["key"]) if "key" in r else st       # the integer the (numpy) key denotes
+        items.append(f"({coq_op(stc, y)}, {coq_expected(rr)}, {fq(sc)})")
         stats["steps"] += 1
         stats["ops"][st["op"]] = stats["ops"].get(st["op"], 0) + 1
         if "err" in rr:
@@ -513,7 +516,8 @@ def describe(m):
     if kind == "seq":
         i, c = code // 100, code % 100
         st = m["seq"]["steps"][i]
-        return st["op"], f"step {i} ({st['op']}): {CODE_NAMES.get(c, c)}"
+        kt = f" key={st['kt']}" if "kt" in st else ""
+        return st["op"], f"step {i} ({st['op']}{kt}): {CODE_NAMES.get(c, c)}"
     if kind == "ctor":
         return "ctor", f"constructor: {CODE_NAMES.get(code, code)}"
     if kind == "getters":
